@@ -240,5 +240,40 @@ fn heap_rawparts_h<T: 'static>() {
     kani::cover!(true, "REACHED");
 }
 
+/// The capacity operations of a REAL heap-backed vector (the operation contracts run on the ghost backend; what
+/// `HeapMem` answers by itself - any provided `Mem`/`MemResizable` method it overrides - is only seen here):
+/// shrink_to / shrink_to_fit end at exactly min(capacity, max(len, m)); reserve_exact at exactly len + n;
+/// reserve at >= len + n; all through the allocator protocol with the element layout.
+/// op: 0 shrink_to_fit, 1 shrink_to(m), 2 reserve_exact(n), 3 reserve(n); `typed`: through the typed view
+fn heap_vec_capacity_h<T: 'static>(op: usize, typed: bool) {
+    am_reset();
+    let cap: usize = kani::any();
+    let len: usize = kani::any();
+    kani::assume(cap <= (1usize << 24) && len <= cap);
+    let mut v: crate::AnyVec<dyn crate::traits::None, Heap> = crate::AnyVec::with_capacity::<T>(cap);
+    unsafe { v.set_len(len) };
+    let x: usize = kani::any();
+    kani::assume(x <= (1usize << 24));
+    if typed {
+        let mut t = v.downcast_mut::<T>().unwrap();
+        if op == 0 { t.shrink_to_fit() } else if op == 1 { t.shrink_to(x) } else if op == 2 { t.reserve_exact(x) } else { t.reserve(x) }
+    } else if op == 0 { v.shrink_to_fit() } else if op == 1 { v.shrink_to(x) } else if op == 2 { v.reserve_exact(x) } else { v.reserve(x) }
+    let cap2 = v.capacity();
+    let want = if op == 0 { len } else if op == 1 { let b = if len > x { len } else { x }; if cap < b { cap } else { b } }
+               else if cap >= len + x { cap } else { len + x };
+    if op <= 2 {
+        kani::assert(cap2 == want, "heap vector: shrink ends at exactly min(capacity, max(len, m)); reserve_exact at exactly len + n (unchanged when sufficient)");
+    } else {
+        kani::assert(cap2 >= want && (cap >= len + x) == (cap2 == cap), "heap vector: reserve reaches at least len + n and leaves a sufficient capacity alone");
+    }
+    kani::assert(v.len() == len, "capacity operations keep the length");
+    check_state::<T>(&v.raw.mem, cap2);
+    unsafe { v.set_len(0) };
+    core::mem::forget(v);
+    kani::cover!(op == 0 && len > 0 && len < cap, "COV shrink to a non-empty length");
+    kani::cover!(op >= 2 && len + x > cap, "COV grows");
+    kani::cover!(true, "REACHED");
+}
+
 include!("k1_heap.inst.rs");
 
